@@ -23,21 +23,28 @@ RULE = ("case = clients (type, id, key) + ordered operations (kind, accepted arg
         "modes: all 16 + 256 sequences of length <= 2, Hypothesis lists of 3..20 operations, two clients run under asyncio.gather. "
         "Non-trivial = history with >= 2 operations on a connection whose consecutive logins got different session ids; "
         "distinct by (kinds, clients, sessions, delays)."
-        ' Also: all ordered pairs of operation kinds with generated arguments, clocks within +-2 h of a UTC-offset change of the host zone, host zones other than UTC, and (thorough) a device that takes 6 and 11 real seconds to answer the login.')
+        ' Also: all ordered pairs of operation kinds with generated arguments, clocks within +-2 h of a UTC-offset change of the host zone, host zones other than UTC, and a device that takes 6 s .. 25 h to answer one step (login or any command) of an operation, under a harness-owned event-loop clock: the slow operation may wait or give up, but every frame it and the following operations write must belong to a whole exchange bound to its own login.')
 ASSUMPTIONS = [
     "the harness owns the schedule: reply delays are counts of event-loop turns; the only interleavings explored are those a single-threaded asyncio client can observe",
     "two operations are never run concurrently on the same API object (unsupported by the stream protocol)",
+    "slow-device cases run under net.virtual_time: when the loop would block on a timer with no socket ready, the loop clock jumps to the timer (2 ms real grace); client and fake device share the loop, so no data is in flight at that point",
     "a frame's timestamp may be read at login or again later: any value inside [clock at call - 1, clock at receipt + 1] is accepted",
 ]
 
 UTC = dt.timezone.utc
 
 
-def check_exchange(case, ccfg, op, frames, times, t_call, idx):
+def check_exchange(case, ccfg, op, frames, times, t_call, idx, gave_up=False):
     kind = op["kind"]
     where = {"client": ccfg, "op_index": idx, "kind": kind}
     model = [ops.login_kind(kind)] + ops.FRAMES[kind]
     got_kinds = [wire.classify(f) if len(f) >= 44 else "short" for f in frames]
+    if gave_up:
+        # the operation raised (only tolerated for a device that answers late): what it did write must still be the
+        # beginning of its own exchange
+        if len(frames) > len(model):
+            raise Violation(f"C03/frame-count/op={kind}", case, model, dict(where, got=got_kinds))
+        model = model[:len(frames)]
     if len(frames) != len(model):
         raise Violation(f"C03/frame-count/op={kind}", case, model, dict(where, got=got_kinds))
     if got_kinds != model:
@@ -97,12 +104,18 @@ async def run_history(rep, case, sub):
                 for r, sh in zip(script, op.get("shifts", [])):
                     if sh:
                         r["hook"] = (lambda s=sh: clock.advance(s))
-                if case.get("slow_login") and not cl.conn.frames:
-                    script[0]["sleep"] = case["slow_login"]
+                slow = case.get("slow")
+                secs = 0
+                if slow and slow["op"] == idx and slow["step"] < len(script):
+                    secs = script[slow["step"]]["sleep"] = slow["secs"]
                 n0 = len(cl.conn.frames)
                 cl.conn.script.clear()
                 cl.conn.script.extend(script)
-                status, res = await cl.call(op["kind"], op["args"])
+                status, res = await cl.call(op["kind"], op["args"], timeout=40.0 + 2 * secs)
+                if slow and status != "ok":
+                    # the client gave up on a slow answer: let the device finish what it was doing before going on
+                    await asyncio.sleep(slow["secs"] + 1)
+                    await cl.settle()
                 results.append((ci, op, cl.conn.frames[n0:], cl.conn.times[n0:], t_call, status, res, idx))
 
             if case.get("concurrent"):
@@ -130,6 +143,10 @@ async def run_history(rep, case, sub):
              labels=(f"ops={min(len(case['ops']), 5)}{'+' if len(case['ops']) > 5 else ''}",
                      "concurrent" if case.get("concurrent") else "sequential"))
     for ci, op, frames, times, t_call, status, res, idx in results:
+        if status != "ok" and case.get("slow"):
+            rep.label("gave-up-on-slow-device")
+            check_exchange(case, cfgs[ci], op, frames, times, t_call, idx, gave_up=True)
+            continue
         if status != "ok":
             raise Violation(f"C03/operation-fails/op={op['kind']}/{type(res).__name__ if res is not None else status}", case,
                             "operation completes", f"{status}: {res!r}")
@@ -151,7 +168,11 @@ def _brief(case):
 
 def make_body(sub):
     def body(rep, case):
-        net.run(run_history(rep, case, sub))
+        if case.get("slow"):
+            with net.virtual_time():
+                net.run(run_history(rep, case, sub))
+        else:
+            net.run(run_history(rep, case, sub))
     return body
 
 
@@ -248,17 +269,35 @@ def strat_dst_clock():
                      gen.dst_timestamps())
 
 
-def cases_slow_device():
-    """A device that takes seconds (real time) to answer the login: the operation must simply wait, and the next
-    operation must still be its own exchange."""
-    out = []
-    for secs in (6.0, 11.0):
-        out.append({"clients": CLIENTS2, "t0": 1_700_000_000, "zone": "UTC", "slow_login": secs, "ops": [
-            {"client": 0, "kind": "get_state", "args": {}, "session": "aa000001", "gap": 1},
-            {"client": 0, "kind": "control_on", "args": {"minutes": 5}, "session": "aa000002", "gap": 1},
-            {"client": 1, "kind": "get_shutter_state", "args": {}, "session": "bb000001", "gap": 1},
-            {"client": 1, "kind": "stop", "args": {}, "session": "bb000002", "gap": 1}]})
-    return out
+SLOW_SECS = {"quick": [6, 61, 3601], "thorough": [2, 6, 11, 31, 61, 121, 301, 901, 3601, 90_000]}
+
+
+def cases_slow_device(tier):
+    """A device that takes seconds to hours to answer one step (login or a command) of one operation, under the
+    harness-owned loop clock (net.virtual_time): the operation may wait or give up, but what it and the following
+    operations on that connection write must still be whole exchanges bound to their own logins."""
+    def gen_cases():
+        out = []
+        n = 0
+        for kind in ops.KINDS:
+            ci = 0 if ops.api_type(kind) == 1 else 1
+            same = ops.KINDS1 if ci == 0 else ops.KINDS2
+            for step in range(1 + len(ops.FRAMES[kind])):
+                for secs in SLOW_SECS[tier]:
+                    n += 1
+                    followers = [same[n % len(same)], same[(n * 5 + 3) % len(same)]]
+                    oplist = []
+                    for i, k in enumerate([kind] + followers):
+                        oplist.append({"client": ci, "kind": k, "args": CANON_ARGS[k], "gap": 1 + i, "salt": 1 + i,
+                                       "session": bytes([0xA0 + i, n % 256, (n >> 8) % 256, 0x11 * (i + 1)]).hex()})
+                    # an exchange on the other API instance after the slow one must not be disturbed either
+                    other = (ops.KINDS2 if ci == 0 else ops.KINDS1)[n % 8]
+                    oplist.append({"client": 1 - ci, "kind": other, "args": CANON_ARGS[other], "gap": 1, "salt": 9,
+                                   "session": bytes([0xC0, n % 256, 0x33, 0x44]).hex()})
+                    out.append({"clients": CLIENTS2, "t0": 1_700_000_000 + n * 100, "zone": "UTC",
+                                "slow": {"op": 0, "step": step, "secs": secs}, "ops": oplist})
+        return out
+    return gen_cases
 
 
 async def run_with_hangup(rep, case, sub):
@@ -337,6 +376,6 @@ def subchecks(tier):
         Sub("device-hangs-up", lambda rep, case: net.run(run_with_hangup(rep, case, "device-hangs-up")), strategy=strat_hangup,
             n=20_000 if big else 400, shards=16 if big else 2),
         Sub("sequences", make_body("sequences"), strategy=strat_seq, n=60_000 if big else 800, shards=16 if big else 4),
-        *([Sub("slow-device", make_body("slow-device"), cases=cases_slow_device, shards=2, exhaustive=True)] if big else []),
+        Sub("slow-device", make_body("slow-device"), cases=cases_slow_device(tier), shards=16 if big else 4, exhaustive=True),
         Sub("interleaved", make_body("interleaved"), strategy=strat_interleaved, n=60_000 if big else 1000, shards=16 if big else 4),
     ]
